@@ -161,6 +161,24 @@ func (o *oracleState) Check(s *Sim, ev *Event, obs *Obs) {
 		}
 	}
 
+	// Structural signature of a known lnd defect: the KV store rewrites the
+	// per-set HTLC blob of an AMP sub-invoice from the ACCEPTED members only,
+	// so a new HTLC that reuses the set id of an already resolved set erases
+	// the resolved members' records.
+	setIDReuseSig := func(victim invoices.CircuitKey, setID [32]byte) string {
+		if o.w.SQL {
+			return ""
+		}
+		for _, c := range ev.Subs {
+			if c.H != nil && c.H.HasAMP && c.H.AmpSetID == setID && c.H.Key != victim {
+				if _, ok := where[c.H.Key]; ok {
+					return "kv-amp-setid-reuse-erases-resolved-htlcs"
+				}
+			}
+		}
+		return ""
+	}
+
 	// ---- B. states only move forward ------------------------------------
 	changed := false
 	var prevIdx []uint64
@@ -196,14 +214,8 @@ func (o *oracleState) Check(s *Sim, ev *Event, obs *Obs) {
 				// HTLC that reuses the set id of an already resolved
 				// set erases the resolved members' records.
 				sig := ""
-				if ph.AMP && !o.w.SQL && ph.State != invoices.HtlcStateAccepted {
-					for _, c := range ev.Subs {
-						if c.H != nil && c.H.HasAMP && c.H.AmpSetID == ph.SetID && c.H.Key != ph.Key {
-							if l2, ok2 := where[c.H.Key]; ok2 && l2.inv.AddIndex == i {
-								sig = "kv-amp-setid-reuse-erases-resolved-htlcs"
-							}
-						}
-					}
+				if ph.AMP && ph.State != invoices.HtlcStateAccepted {
+					sig = setIDReuseSig(ph.Key, ph.SetID)
 				}
 				r.FailSig("htlc-vanished", sig, "[%s store, event %d %s] HTLC %s (was %s on invoice #%d) is no longer recorded there", wn, ev.No, ev.Kind, keyStr(ph.Key), htlcStateStr(ph.State), i)
 			}
@@ -399,7 +411,11 @@ func (o *oracleState) Check(s *Sim, ev *Event, obs *Obs) {
 				if rec {
 					st = "recorded as " + htlcStateStr(l.h.State)
 				}
-				fail("settle-unrecorded", "link told to settle HTLC %s (%s) but the HTLC is %s", keyStr(x.k), x.v, st)
+				sig := ""
+				if spec.HasAMP && !rec {
+					sig = setIDReuseSig(x.k, spec.AmpSetID)
+				}
+				r.FailSig("settle-unrecorded", sig, "[%s store, event %d %s] link told to settle HTLC %s (%s) but the HTLC is %s", wn, ev.No, ev.Kind, keyStr(x.k), x.v, st)
 			}
 			t.settleRes = true
 			r.Count("settle_resolutions")
